@@ -27,6 +27,7 @@ from django_evolution.compat.models import (get_remote_field,
 from django_evolution.db.sql_result import AlterTableSQLResult, SQLResult
 from django_evolution.errors import EvolutionNotImplementedError
 from django_evolution.support import supports_index_feature
+from django_evolution.utils.datastructures import filter_dup_list_items
 from django_evolution.utils.models import iter_non_m2m_reverse_relations
 
 
@@ -1289,10 +1290,18 @@ class BaseEvolutionOperations(object):
         sql_result = SQLResult()
         table_name = model._meta.db_table
 
-        old_unique_together = set(old_unique_together)
-        new_unique_together = set(new_unique_together)
+        # Process entries in the order they're listed, rather than in set
+        # order, so that the generated SQL doesn't vary from run to run
+        # (set iteration order depends on the hash seed).
+        old_unique_together = filter_dup_list_items(old_unique_together)
+        new_unique_together = filter_dup_list_items(new_unique_together)
+        new_unique_together_set = set(new_unique_together)
 
-        to_remove = old_unique_together.difference(new_unique_together)
+        to_remove = [
+            field_names
+            for field_names in old_unique_together
+            if field_names not in new_unique_together_set
+        ]
 
         for field_names in to_remove:
             fields = self.get_fields_for_names(model, field_names)
@@ -1347,10 +1356,17 @@ class BaseEvolutionOperations(object):
         sql_result = SQLResult()
         table_name = model._meta.db_table
 
-        old_index_together = set(old_index_together or [])
-        new_index_together = set(new_index_together)
+        # Process entries in the order they're listed, rather than in set
+        # order, so that the generated SQL doesn't vary from run to run.
+        old_index_together = filter_dup_list_items(old_index_together or [])
+        new_index_together = filter_dup_list_items(new_index_together)
+        new_index_together_set = set(new_index_together)
 
-        to_remove = old_index_together.difference(new_index_together)
+        to_remove = [
+            field_names
+            for field_names in old_index_together
+            if field_names not in new_index_together_set
+        ]
 
         for field_names in to_remove:
             fields = self.get_fields_for_names(model, field_names)
